@@ -94,7 +94,7 @@ def random_histories(family, count, length, seed):
     return out
 
 
-def replay_and_validate(run, label, histories):
+def replay_and_validate(run, label, histories, pre=None):
     if not histories:
         return 0
     wd = os.path.join(tla.WORK, f'{run.pid}-{label}')
@@ -102,7 +102,7 @@ def replay_and_validate(run, label, histories):
     inp, outp = os.path.join(wd, 'hist.ndjson'), os.path.join(wd, 'traces.ndjson')
     with open(inp, 'w') as fh:
         for i, h in enumerate(histories):
-            fh.write(json.dumps({'tid': i + 1, 'calls': h}) + '\n')
+            fh.write(json.dumps({'tid': i + 1, 'calls': h, 'pre': (i + 1) % 2 == 1 if pre is None else pre}) + '\n')
     p = run.drive('harness.drivers.d_reg', [inp, outp])
     if p.returncode != 0:
         return 0
@@ -140,7 +140,8 @@ def replay_and_validate(run, label, histories):
     traces = [json.loads(l) for l in lines]
     for tid, (idx, clauses) in sorted(fails.items()):
         tr = traces[tid - 1]
-        run.violation({'kind': 'trace', 'clauses': clauses, 'event_index': idx, 'calls': histories[tid - 1][:idx], 'event': tr['ev'][idx - 1]},
+        run.violation({'kind': 'trace', 'clauses': clauses, 'event_index': idx, 'calls': histories[tid - 1][:idx], 'event': tr['ev'][idx - 1],
+                       'prebuilt_context_managers': tid % 2 == 1 if pre is None else pre},
                       f'registry trace rejected at event {idx} ({tr["ev"][idx - 1]["op"]}): {clauses}')
     run.traces += len(done)
     for h in histories[:2]:
